@@ -4,7 +4,7 @@
    advance 1 0 t: the position just after the last character of t. *)
 From RS Require Import Base.Prelude Base.Text Codec.Vlq Codec.CodecSpec Stream.Types Stream.Leaves
   Stream.Concat Stream.Tree Checkers.ChkTree Proofs.StreamText Proofs.StreamLeaves Proofs.StreamMap
-  Proofs.StreamConcat Proofs.StreamTree.
+  Proofs.StreamConcat Proofs.StreamTree Stream.Replace Proofs.RStreamText Proofs.RStreamPos Proofs.RStreamTree.
 
 Theorem C02_advance_compositional : forall l c a b,
   advance l c (a ++ b) = let '(l', c') := advance l c a in advance l' c' b.
@@ -43,3 +43,29 @@ Theorem C02_positions_partial : forall st s cols,
   gi = advance 1 0 (source s) /\ st' = st.
 Proof. exact treeA_stream_good. Qed.
 Print Assumptions C02_positions_partial.
+
+(* ReplaceSource: the line-offset / column-offset bookkeeping is exact - deleted and inserted line
+   breaks, whole and partial skips, overlapping replacements, the remainder after the last chunk.
+   chunks_nl_last: a chunk holds a line feed at most as its last byte (true of every stream here).
+   The bound keeps every line and column inside u32. *)
+Theorem C02_replace : forall sorted ievs T,
+  Forall (fun r => r_start r <= r_end r) sorted ->
+  reassembles ievs T = true -> well_positioned (chunks_of ievs) 1 0 = true ->
+  chunks_nl_last ievs = true ->
+  len T + len (concat (map r_content sorted)) + 1 < 4294967296 ->
+  let r := replace_stream sorted ievs (advance 1 0 T) in
+  reassembles (fst r) (splice T sorted 0) = true /\
+  well_positioned (chunks_of (fst r)) 1 0 = true /\
+  chunks_nl_last (fst r) = true /\ snd r = advance 1 0 (splice T sorted 0).
+Proof. exact replace_stream_positioned. Qed.
+Print Assumptions C02_replace.
+
+(* all ASCII trees over Raw* / Original / SourceMapSource (consistent map) / Concat / Replace to any
+   depth, text-carrying mode, both column settings, any store *)
+Theorem C02_positions : forall st s cols,
+  RStreamTree.rshape s = true -> treeA s = true -> rsmall s = true ->
+  let '(evs, gi, st') := stream st s (mkOpts cols false) in
+  reassembles evs (source s) = true /\ well_positioned (chunks_of evs) 1 0 = true /\
+  gi = advance 1 0 (source s) /\ st' = st.
+Proof. exact rshape_stream_good. Qed.
+Print Assumptions C02_positions.
